@@ -274,6 +274,10 @@ class NamedQubit:
     """
 
     def __init__(self, name, alias_from, alias_index):
+        if isinstance(alias_index, float) and alias_index.is_integer():
+            # An integral float (e.g. a let overridden with 2.0) denotes
+            # that integer; the backends shift and index with it.
+            alias_index = int(alias_index)
         self._name = name
         self._alias_from = alias_from
         self._alias_index = alias_index
